@@ -281,6 +281,35 @@ class KOpt(Kind):
         return VOptTerm(t, self)
 
 
+class KExcOr(Kind):
+    '''Either a value of kind `inner` or an exception object of class `exc` (values of caches that
+    remember failures).  Resolved by a path split when read.'''
+
+    def __init__(self, inner, exc):
+        self.inner, self.exc = inner, exc
+        self.name = f'ExcOr_{inner.name}_{exc}'
+
+    def sort(self):
+        return _dt(self.name, [('ok_' + self.name, [('okv_' + self.name, self.inner.sort())]),
+                               ('err_' + self.name, [])])
+
+    def wrap(self, term, ip=None):
+        s = self.sort()
+        if ip is None or ip.mode != 'code':
+            return VExcOrTerm(term, self)
+        if ip.branch(s.recognizer(1)(term)):
+            return VExc(self.exc, ())
+        return self.inner.wrap(s.accessor(0, 0)(term), ip)
+
+    def unwrap(self, v):
+        s = self.sort()
+        if isinstance(v, VExcOrTerm):
+            return v.t
+        if isinstance(v, VExc):
+            return s.constructor(1)()
+        return s.constructor(0)(self.inner.unwrap(v))
+
+
 class KObj(Kind):
     '''A reference to a heap object of a class under contract (not storable in SMT
     containers; created by the class description in the sidecar).'''
@@ -404,6 +433,11 @@ class VU(Value):
 
     def __repr__(self):
         return f'VU({self.t}:{self.kind.name})'
+
+
+class VExcOrTerm(Value):
+    def __init__(self, t, kind):
+        self.t, self.kind = t, kind
 
 
 class VOptTerm(Value):
